@@ -12,7 +12,7 @@ GARBAGE = ['diff --git a/x b/x', 'index 123..456 100644', '--- a/x', '+++ b/x',
 MARKER = '\\ No newline at end of file'
 
 
-def gen_hunk(rng, ascii_only=False):
+def gen_hunk(rng, ascii_only=False, ok=None):
     """Returns (lines, inserts, deletes)."""
     nctx = rng.choice([0, 0, 1, 3])
     nminus = rng.choice([0, 1, 2, 5])
@@ -20,7 +20,8 @@ def gen_hunk(rng, ascii_only=False):
     body = []
     kinds = [' '] * nctx + ['-'] * nminus + ['+'] * nplus
     rng.shuffle(kinds)
-    pl = [p for p in PAYLOADS if not ascii_only or p.isascii()]
+    pl = [p for p in PAYLOADS if (not ascii_only or p.isascii()) and
+          (ok is None or ok(p))]
 
     for k in kinds:
         body.append(k + rng.choice(pl))
@@ -56,7 +57,7 @@ def gen_hunk(rng, ascii_only=False):
     return lines, nplus, nminus
 
 
-def gen_diff(rng, ascii_only=False, damaged=False):
+def gen_diff(rng, ascii_only=False, damaged=False, ok=None):
     """Returns (text lines without newlines, inserts, deletes, parsable)."""
     lines = []
     ins = dels = 0
@@ -68,7 +69,7 @@ def gen_diff(rng, ascii_only=False, damaged=False):
     nh = rng.randint(0 if rng.chance(0.1) else 1, 4)
 
     for _ in range(nh):
-        h, i, d = gen_hunk(rng, ascii_only)
+        h, i, d = gen_hunk(rng, ascii_only, ok)
         lines.extend(h)
         ins += i
         dels += d
